@@ -1582,6 +1582,17 @@ def control_conds(fu, block):
 			out.append((bi, leaf_key(e) if e[0] != 'disc' else 'disc:' + leaf_key(e[1]), fu.line_of(bi)))
 	return out
 
+def back_edge_heads(fu):
+	"""heads of natural loops: targets of edges whose source they dominate (covers `loop {}` / `while`, not only iterator loops)"""
+	if hasattr(fu, '_beh'):
+		return fu._beh
+	out = set()
+	for a, b in fu.edges():
+		if fu.dominates(b, a):
+			out.add(b)
+	fu._beh = out
+	return out
+
 def P4_fail_blocks(facts, rule, fu, acts, decisions, want_true=True, what='', key=None, min_decisions=1, stop_blocks=()):
 	"""from the failing edge of every decision no act is reachable (unless a pass edge of
 	one of the decisions is taken again, e.g. on the next loop iteration)."""
